@@ -140,6 +140,15 @@ C17_Refused == IsReq /\ Refused /\ ~Ev.cfg.first /\ Ev.mode \in {"L", "P"} =>
                  /\ (RPost.code = RPre.code \/ (RPre.code = <<>> /\ RPost.code = RootCode))
                  /\ (Ev.mode = "P" /\ Ev.havesave => /\ PersProj(RSaved) = PersProj(RPre)
                                                       /\ (RSaved.code = RPre.code \/ (RPre.code = <<>> /\ RSaved.code = RootCode)))
+\* ... with a pre-VM check the check itself has run (its flag changes are the application's own doing); the refused input
+\* still moves nothing, loads nothing, leaves every cache scope where it was and the pending code as it was
+C17_RefusedFirst == IsReq /\ Refused /\ Ev.cfg.first /\ Ev.mode \in {"L", "P"} /\ Ev.panic = "" =>
+                 /\ Ev.niter = 0 /\ (RJudged => RQ.err = Ev.err /\ RQ.cont = Ev.cont)  \* (a check that ends the session answers the request itself)
+                 /\ NavProj(RPost) = NavProj(RPre) /\ CacheProj(RPost) = CacheProj(RPre) /\ Len(RPost.c.frames) = Len(RPre.c.frames)
+                 /\ RPost.lang = RPre.lang
+                 /\ (RPost.code = RPre.code \/ (RPre.code = <<>> /\ RPost.code = RootCode))
+                 /\ (Ev.mode = "P" /\ Ev.havesave => /\ NavProj(RSaved) = NavProj(RPre) /\ CacheProj(RSaved) = CacheProj(RPre)
+                                                      /\ Len(RSaved.c.frames) = Len(RPre.c.frames))
 C17_RefusedOutput == IsReq /\ Refused /\ Ev.flushed /\ ~Ev.cfg.first => Ev.outlen = 0 /\ Ev.fext = <<>>
 
 \* ---- C20 / C06: end of session
